@@ -51,10 +51,18 @@ def apply_handlers(table, value):
     return value
 
 
+class RawValue(object):
+    """A Python value returned by a callable whose way through the handler table
+    and the JSON encoder the model still has to follow"""
+
+    def __init__(self, value):
+        self.value = value
+
+
 class Registry(object):
     """Recording callables registered on the dispatcher under test"""
 
-    NAMES = ["echo", "boom", "two", "kw", "none", "a.b", "é", "nonjson", "zero"]
+    NAMES = ["echo", "boom", "two", "kw", "none", "a.b", "é", "nonjson", "zero", "badkeys"]
 
     def __init__(self, jsonclass=True, exc_factory=None):
         self.log = []
@@ -90,12 +98,19 @@ class Registry(object):
             return 0
 
         def nonjson(*a):
+            # a value whose conversion fails: in the class translator when it is on,
+            # in the JSON encoder when it is off
             reg.log.append(("nonjson", list(a), {}))
-            return Unconvertible() if reg.jsonclass else "plain"
+            return Unconvertible() if reg.jsonclass else set([1, 2])
+
+        def badkeys(*a):
+            # passes the class translator (keys are not converted), fails in the JSON encoder
+            reg.log.append(("badkeys", list(a), {}))
+            return {("t", 1): "v"}
 
         self.funcs = {"echo": echo, "boom": boom, "two": two, "kw": kw,
                       "none": none, "a.b": echo, "é": none,
-                      "nonjson": nonjson, "zero": zero}
+                      "nonjson": nonjson, "zero": zero, "badkeys": badkeys}
 
     # -- custom dispatch function (also used as instance._dispatch)
     def custom_dispatch(self, method, params):
@@ -107,6 +122,8 @@ class Registry(object):
             raise self.last_exc
         if method == "nonjson" and self.jsonclass:
             return Unconvertible()
+        if method == "badkeys":
+            return {("t", 1): "v"}
         if method == "fault":
             # one shared instance, as a module-level constant would be
             if self.shared_fault is None:
@@ -152,6 +169,8 @@ class Registry(object):
                 return "error", (-32603, [type(exc).__name__, str(exc)]), logged
             if method == "nonjson" and self.jsonclass:
                 return "error", (-32603, []), logged
+            if method == "badkeys":
+                return "result", RawValue({("t", 1): "v"}), logged
             if method == "fault":
                 return "error", (-32001, ["custom fault"]), logged
             if method == "none":
@@ -194,9 +213,9 @@ class Registry(object):
         if name == "zero":
             return "result", 0, [("zero", args, {})]
         if name == "nonjson":
-            if self.jsonclass:
-                return "error", (-32603, []), [("nonjson", args, {})]
-            return "result", "plain", [("nonjson", args, {})]
+            return "error", (-32603, []), [("nonjson", args, {})]
+        if name == "badkeys":
+            return "result", RawValue({("t", 1): "v"}), [("badkeys", args, {})]
         raise AssertionError(name)
 
 
@@ -295,11 +314,21 @@ def model(text, server_version, registry, mode, handlers=None):
     Raises Skip for texts outside the domain (R12).
     """
     exp = _model(text, server_version, registry, mode)
-    if handlers and registry.jsonclass:
-        table = HANDLER_TABLES[handlers]
-        for r in exp.responses:
-            if r["kind"] == "result":
-                r["value"] = apply_handlers(table, r["value"])
+    table = HANDLER_TABLES[handlers] if handlers and registry.jsonclass else {}
+    for r in exp.responses:
+        if r["kind"] != "result":
+            continue
+        raw = isinstance(r["value"], RawValue)
+        value = apply_handlers(table, r["value"].value if raw else r["value"])
+        if raw:
+            try:
+                value = json.loads(json.dumps(value))
+            except (TypeError, ValueError):
+                # the encoder refuses it: this entry alone is answered with -32603
+                r.update({"kind": "error", "code": -32603, "contains": []})
+                r.pop("value")
+                continue
+        r["value"] = value
     return exp
 
 
@@ -536,4 +565,8 @@ def run_body(text, version, jsonclass, mode, exc_factory=None, handlers=None):
 def raise_mine(problems, prefixes):
     for v in problems:
         if v.signature.split("/")[0] in prefixes:
+            raise v
+        # a dispatcher that raises answers nothing at all: the properties that demand a
+        # response for the entry (C03: one response per entry, C05: the error code) fail with it
+        if v.signature.startswith("C02/dispatcher-raised") and ("C03" in prefixes or "C05" in prefixes):
             raise v
